@@ -180,7 +180,10 @@ let () =
       (* 1. known forms x all configs x pool *)
       List.iter (fun f ->
         let c = int_of_n (form_code f) in
+        (* the version matters only to ref_addr and data4/data8: the other forms get versions 2 and 5 *)
+        let version_sensitive = (c = 0x10 || c = 0x06 || c = 0x07) in
         List.iter (fun (v, f64, asz, bigend) ->
+          if version_sensitive || v = 2 || v = 5 then begin
           let e = mk_enc v f64 asz bigend in
           let sp () = { name = name (); form = c; implicit = Z.of_int 42 } in
           List.iter (fun l -> go v f64 asz bigend [sp ()] (ints l)) generic_pool;
@@ -188,7 +191,7 @@ let () =
             go v f64 asz bigend [sp ()] bs;
             go v f64 asz bigend [sp ()] (bs @ ints [0x5a]);
             (match List.rev bs with [] -> () | _ :: t -> go v f64 asz bigend [sp ()] (List.rev t)))
-            (encode_all f e)) configs) all_forms;
+            (encode_all f e) end) configs) all_forms;
       (* 2. indirect chains *)
       List.iter (fun f ->
         let c = int_of_n (form_code f) in
@@ -321,7 +324,7 @@ let () =
       done);
 
   register "c03.size"
-    ~doc:"AttributeSpecification::size: every form code 0..0xffff x 4 rotating encodings (n >= 1000000: x all 64); known forms x version 1-6 x format x address size 0,1,2,3,4,8,16,255"
+    ~doc:"AttributeSpecification::size: every form code 0..0xffff x 2 rotating encodings (n >= 1000000: x all 64); known forms x version 1-6 x format x address size 0,1,2,3,4,8,16,255"
     (fun ~seed:_ ~n emit ->
       let case c v f64 asz =
         let e = mk_enc v f64 asz false in
@@ -331,7 +334,7 @@ let () =
         [0; 1; 2; 3; 4; 8; 16; 255]) [false; true]) [1; 2; 3; 4; 5; 6]) known_forms;
       for c = 0 to 0xffff do
         if n >= 1000000 then List.iter (fun (v, f64, asz, _) -> case c v f64 asz) (List.filteri (fun i _ -> i mod 2 = 0) configs)
-        else for k = 0 to 3 do let (v, f64, asz, _) = config_of_int (c * 4 + k * 2 + (c / 16) * 8) in case c v f64 asz done
+        else for k = 0 to 1 do let (v, f64, asz, _) = config_of_int (c * 6 + k * 34 + (c / 16) * 8) in case c v f64 asz done
       done);
 
   register "c03.value"
